@@ -36,6 +36,14 @@ def gen_static(g, Dw, Dy, N):
     return dict(scn="static", prior=prior, obs=obs, perm=perm, Dw=Dw, Dy=Dy, cls=cls, ctor=ctor)
 
 
+def gen_batched(g, R, N, Dw, Dy):
+    """a bank of R priors updated with N observed values of one observation model in ONE call: R*N posteriors, r*N+n"""
+    c = lin.gen_cond(g, g.choice(["full", "diag"]), 1, Dy, Dw, ctor=g.choice(["Sigma", "Lambda"]))
+    if c["b"] is None:
+        c["b"] = [[Fr(0)] * Dy]
+    return dict(scn="batched", prior=lin.gen_pdfv(g, R, Dw, ctor="Sigma"), c=c, ys=g.mat(N, Dy), xs=g.mat(2, Dw), R=R, N=N, Dw=Dw, Dy=Dy)
+
+
 def gen_kalman(g, Dz, Dx, T):
     return dict(scn="kalman", Dz=Dz, Dx=Dx, T=T, prior=lin.gen_pdfv(g, 1, Dz, ctor="Sigma"),
                 state=dict(lin.gen_cond(g, g.choice(["full", "diag"]), 1, Dz, Dz, ctor=g.choice(["Sigma", "Lambda"])), b=[g.vec(Dz)]),
@@ -51,11 +59,16 @@ def gen_descs(g, tier):
             if q and N == 3 and Dw + Dy > 4:
                 continue
             out.append(C.J(gen_static(g, Dw, Dy, N)))
+    for (R, N, Dw, Dy) in [(2, 2, 1, 1), (3, 2, 2, 1), (2, 3, 2, 2)] + ([] if q else [(1, 3, 2, 2), (3, 1, 1, 2), (4, 3, 3, 2)]):
+        out.append(C.J(gen_batched(g, R, N, Dw, Dy)))
     for (Dz, Dx) in [(1, 1), (2, 1), (1, 2), (2, 2)]:
         for T in ([1, 3] if q else [1, 2, 4, 8, 12]):
             out.append(C.J(gen_kalman(g, Dz, Dx, T)))
     for _ in range(0 if q else 300):
-        if g.randint(0, 2):
+        k = g.randint(0, 3)
+        if k == 0:
+            out.append(C.J(gen_batched(g, g.randint(1, 4), g.randint(1, 4), g.randint(1, 3), g.randint(1, 3))))
+        elif k == 1:
             out.append(C.J(gen_static(g, g.randint(1, 3), g.randint(1, 3), g.randint(1, 6))))
         else:
             out.append(C.J(gen_kalman(g, g.randint(1, 2), g.randint(1, 2), g.randint(1, 12))))
@@ -68,7 +81,7 @@ def search_descs(g, failing, tier):
 
 
 hist = lambda d: dict(scn=d["scn"], cls=d.get("cls"), ctor=d.get("ctor"), N=len(d.get("obs", [])), T=d.get("T"), Dw=d.get("Dw", d.get("Dz")), Dy=d.get("Dy", d.get("Dx")))
-nontrivial = lambda d: len(d.get("obs", [])) >= 2 or (d.get("T") or 0) >= 2
+nontrivial = lambda d: len(d.get("obs", [])) >= 2 or (d.get("T") or 0) >= 2 or d.get("R", 1) * d.get("N", 1) >= 2
 scenario = lambda d: d["scn"]
 
 
@@ -107,6 +120,13 @@ def coq_term(d):
         obsP = lambda t: "obs_ucore %s ++ obs_ucache %s" % (t, t)
         return ("%s ++ %s ++ %s ++ (let m := %s in dL 1 (log_integral m).2 ++ (let g := (get_density m).2 in %s)) ++ %s"
                 % (obsP(t1), obsP(t2), obsP(t3), t4, obsP("g"), " ++ ".join(ev1)))
+    if d["scn"] == "batched":
+        R, N = d["R"], d["N"]
+        return ("let p := %s in let c := %s in let ys := lxs %s in "
+                "(let post := condition_on_x (affine_conditional c p) ys in obs_ucore post ++ obs_ucache post ++ obs_ueval post %s) "
+                "++ obs_ueval (affine_marginal c p) %s "
+                "++ (let m := multiply false p (set_y true c ys) in dL %d (log_integral m).2 ++ (let g := (get_density m).2 in obs_ucore g ++ obs_ucache g))"
+                % (lin.coq_pdfv(d["prior"]), lin.coq_cond(d["c"]), cmat(d["ys"]), cmat(d["xs"]), cmat(d["ys"]), R * N))
     # kalman
     st = lin.coq_cond(d["state"]); em = lin.coq_cond(d["emis"])
     t = lin.coq_pdfv(d["prior"])
@@ -128,7 +148,7 @@ def coq_term(d):
 
 def alt_terms(d):
     d2 = C.U(d)
-    if d2["scn"] != "static":
+    if d2["scn"] not in ("static", "batched"):
         return []
     return [coq_term(d).replace("set_y true", "set_y false")]
 
@@ -185,6 +205,36 @@ def run_impl(d):
             key = SETY_KEY if (Dw != Dy and abs((logev[0] - true_ev) - off) < 1e-8 * max(1.0, abs(true_ev))) else None
             fails.append(lin.fail(["C11"], "log_integral(prior x likelihood factors) = log marginal likelihood", "set_y/evidence", key,
                                   diff=float(logev[0] - true_ev), Dw=Dw, Dy=Dy, N=N))
+        return ob, fails
+    if d["scn"] == "batched":
+        R, N, Dw, Dy = d["R"], d["N"], d["Dw"], d["Dy"]
+        p = lin.impl_pdfv(d["prior"]); c, _ = lin.impl_cond(d["c"])
+        ys = jarr(d["ys"]); xs = jarr(d["xs"])
+        q = c.affine_conditional_transformation(p).condition_on_x(ys)
+        obsP(ob, q, "post."); e_q = np.asarray(q.evaluate_ln(xs)); ob.add("post.evaluate_ln", e_q)
+        ev = np.asarray(c.affine_marginal_transformation(p).evaluate_ln(ys)); ob.add("pred", ev)
+        m = p.multiply(c.set_y(ys))
+        logev = np.asarray(m.log_integral()); ob.add("log_evidence", logev)
+        g4 = m.get_density(); obsP(ob, g4, "factor.")
+        M = gtlib.fl(d["c"]["M"][0]); b = gtlib.fl(d["c"]["b"][0]); Rn = gtlib.fl(d["c"]["Sig"][0])
+        x = gtlib.fl(d["xs"])
+        for r in range(R):
+            S0 = gtlib.fl(d["prior"]["Sig"][r]); m0 = gtlib.fl(d["prior"]["mu"][r])
+            Syy = M @ S0 @ M.T + Rn; K = S0 @ M.T @ np.linalg.inv(Syy)
+            for n in range(N):
+                y = gtlib.fl(d["ys"][n]); k = r * N + n
+                mu_post = m0 + K @ (y - M @ m0 - b); S_post = S0 - K @ M @ S0
+                tev = lin.logN(y[None], M @ m0 + b, Syy)[0]
+                for tag, o in (("sequential", q), ("prior x likelihood factors", g4)):
+                    lin.chk(fails, ["C11"], "posterior mean, component r*N+n (%s)" % tag, "bayes-batched", np.asarray(o.mu)[k], mu_post)
+                    lin.chk(fails, ["C11"], "posterior covariance, component r*N+n (%s)" % tag, "bayes-batched", np.asarray(o.Sigma)[k], S_post)
+                lin.chk(fails, ["C11"], "posterior log-density, component r*N+n", "bayes-batched", e_q[k], lin.logN(x, mu_post, S_post))
+                lin.chk(fails, ["C11"], "predictive log-density [r, n]", "bayes-batched", ev[r, n], tev)
+                if not gtlib.close(logev[k], tev):
+                    off = (Dy - Dw) * HL2P
+                    key = SETY_KEY if (Dw != Dy and abs((logev[k] - tev) - off) < 1e-8 * max(1.0, abs(tev))) else None
+                    fails.append(lin.fail(["C11"], "log_integral(prior x likelihood factor) = predictive log-density, component r*N+n", "set_y/evidence", key,
+                                          diff=float(logev[k] - tev), Dw=Dw, Dy=Dy))
         return ob, fails
     # ---- Kalman filter
     Dz, Dx, T = d["Dz"], d["Dx"], d["T"]
